@@ -1,23 +1,220 @@
 package simos
 
-// Signal simulation is added by sigsched.go when built with a toolchain that
-// has testing/synctest; this file holds the parts that need no scheduler.
+import (
+	"bytes"
+	"runtime"
+	"strconv"
+	"sync"
+)
 
-type sigState struct{}
+// Signal simulation.
+//
+// gxz starts one goroutine per file ("handler") that waits for either its quit
+// channel or a signal; on a signal it removes the temporary file and exits
+// with status 7. The simulator owns both ends: simsignal.Notify/Stop are the
+// rewritten os/signal calls, and the scratch copy's `close(quit)` calls are
+// rewritten to simsignal.CloseQuit, which closes the channel and then waits
+// until the handler has acknowledged (called Stop) - so the handler is in a
+// known state (armed / disarmed / handling) at every file-system operation.
+//
+// With Plan.SigAt = i the simulated SIGINT is delivered when the main task
+// reaches its i-th mutating operation. From then on two tasks exist; both park
+// at every simos call ("gate") and the plan decides who proceeds: the handler
+// performs its first operation after Plan.SigRemoveAfter further main
+// operations and its second after Plan.SigExitAfter more. One integer triple
+// is one exactly repeatable interleaving.
 
-// gate is the scheduling point in front of every operation. Without signal
-// simulation exactly one task exists and the gate is open.
-func (w *World) gate(mutating bool) {}
+type sigState struct {
+	ch        chan<- Signal
+	armed     bool // Notify called, quit not yet acknowledged
+	delivered bool
+	stopped   bool
+	mainGoid  int64
+	// handler parking
+	handlerAt   chan struct{} // handler arrived at a gate
+	handlerGo   chan struct{} // handler may proceed
+	handlerOps  int           // operations the handler has been granted
+	mainSince   int           // main operations since the last handler step
+	handlerGone bool
+	cond        *sync.Cond
+}
 
-// task reports which task is running (0 main, 1 signal handler).
-func (w *World) task() int { return 0 }
+var sigRegistry sync.Map // chan<- Signal -> *World
 
-// NotifyChan registers a channel for simulated signals (called by simsignal).
-func NotifyChan(c chan<- Signal) {
-	w := world()
+func goid() int64 {
+	var buf [64]byte
+	n := runtime.Stack(buf[:], false)
+	// "goroutine 123 ["
+	b := buf[:n]
+	b = bytes.TrimPrefix(b, []byte("goroutine "))
+	i := bytes.IndexByte(b, ' ')
+	if i < 0 {
+		return -1
+	}
+	id, _ := strconv.ParseInt(string(b[:i]), 10, 64)
+	return id
+}
+
+// BeginInvocation is called by the harness on the goroutine that runs main().
+func (w *World) BeginInvocation() {
 	w.mu.Lock()
+	w.sig = &sigState{mainGoid: goid(), handlerAt: make(chan struct{}, 1), handlerGo: make(chan struct{}, 1)}
+	w.sig.cond = sync.NewCond(&w.mu)
 	w.mu.Unlock()
 }
 
-// StopChan unregisters a channel.
-func StopChan(c chan<- Signal) {}
+// NotifyChan registers a channel for simulated signals (simsignal.Notify).
+func NotifyChan(c chan<- Signal) {
+	w := world()
+	w.mu.Lock()
+	if w.sig != nil {
+		w.sig.ch = c
+		w.sig.armed = true
+		w.sig.stopped = false
+	}
+	w.mu.Unlock()
+	sigRegistry.Store(c, w)
+}
+
+// StopChan unregisters a channel (simsignal.Stop, called by the handler).
+func StopChan(c chan<- Signal) {
+	v, ok := sigRegistry.LoadAndDelete(c)
+	if !ok {
+		return
+	}
+	w := v.(*World)
+	w.mu.Lock()
+	if w.sig != nil && w.sig.ch == c {
+		w.sig.stopped = true
+		w.sig.armed = false
+		w.sig.cond.Broadcast()
+	}
+	w.mu.Unlock()
+}
+
+// CloseQuit replaces close(quit) in the scratch copy of gxz: it closes the
+// handler's quit channel and waits until the handler has acknowledged by
+// calling Stop - unless the handler is already busy with a delivered signal.
+func CloseQuit(quit chan<- struct{}) {
+	w := world()
+	close(quit)
+	w.mu.Lock()
+	s := w.sig
+	if s == nil || s.ch == nil {
+		w.mu.Unlock()
+		return
+	}
+	s.armed = false
+	for !s.stopped && !s.delivered && !w.Dead && !w.Exited {
+		s.cond.Wait()
+	}
+	w.mu.Unlock()
+}
+
+// task reports which task is running (0 main, 1 signal handler). Caller holds
+// no lock or w.mu; only valid fields are read.
+func (w *World) task() int {
+	s := w.sig
+	if s == nil || !s.delivered {
+		return 0
+	}
+	if goid() != s.mainGoid {
+		return 1
+	}
+	return 0
+}
+
+// gate is the scheduling point in front of every operation.
+func (w *World) gate(kind int) {
+	mutating := kind == gateMut
+	w.mu.Lock()
+	s := w.sig
+	if s != nil && kind == gateRead && s.armed && !s.delivered {
+		w.ArmedReads++
+	}
+	if s == nil || (w.Plan.SigAt == 0 && w.Plan.SigAtRead == 0) {
+		w.mu.Unlock()
+		return
+	}
+	if w.Dead || w.Exited {
+		w.mu.Unlock()
+		if s.delivered && goid() != s.mainGoid {
+			runtime.Goexit()
+		}
+		return // enter() unwinds
+	}
+	isMain := !s.delivered || goid() == s.mainGoid
+	if !isMain {
+		// handler: announce arrival, wait for the grant
+		w.mu.Unlock()
+		s.handlerAt <- struct{}{}
+		<-s.handlerGo
+		w.mu.Lock()
+		dead := w.Dead || w.Exited
+		w.mu.Unlock()
+		if dead {
+			runtime.Goexit()
+		}
+		return
+	}
+	// main task
+	if !s.delivered {
+		if (mutating && w.Plan.SigAt > 0 && w.NMut+1 == w.Plan.SigAt) || (kind == gateRead && w.Plan.SigAtRead > 0 && s.armed && w.ArmedReads == w.Plan.SigAtRead) {
+			if !s.armed {
+				// no handler is listening: the default action of SIGINT ends the process
+				w.Dead = true
+				w.Fired["sigint-default-action"]++
+				w.mu.Unlock()
+				return
+			}
+			s.delivered = true
+			w.Fired["sigint-delivered"]++
+			ch := s.ch
+			w.mu.Unlock()
+			select {
+			case ch <- Interrupt:
+			default:
+			}
+			<-s.handlerAt // the handler wakes up and parks at its first operation
+			w.mu.Lock()
+		} else {
+			w.mu.Unlock()
+			return
+		}
+	}
+	// both tasks are parked here; decide who proceeds
+	for !s.handlerGone {
+		want := w.Plan.SigRemoveAfter
+		if s.handlerOps >= 1 {
+			want = w.Plan.SigExitAfter
+		}
+		if s.mainSince < want {
+			break // main proceeds
+		}
+		// the handler performs one operation, then parks again or exits
+		s.mainSince = 0
+		s.handlerOps++
+		w.mu.Unlock()
+		s.handlerGo <- struct{}{}
+		<-s.handlerAt
+		w.mu.Lock()
+		if w.Dead || w.Exited {
+			break
+		}
+	}
+	s.mainSince++
+	w.mu.Unlock()
+}
+
+// handlerExit is called by Exit on the handler task: the process ends with
+// the handler's status; the main task unwinds at its next operation.
+func (w *World) handlerExit(code int) {
+	s := w.sig
+	w.Exited = true
+	w.Code = code
+	w.log(OpRec{Kind: "exit", N: code, Task: 1})
+	s.handlerGone = true
+	w.mu.Unlock()
+	s.handlerAt <- struct{}{}
+	runtime.Goexit()
+}
